@@ -33,6 +33,7 @@ FlowsOf(list) == [k \in { list[i].k : i \in DOMAIN list } |-> FlowOf(list[CHOOSE
 
 Do(op) ==
   CASE op.kind = "Ingest"   -> \E latest \in BOOLEAN : Ingest(op.r, latest)
+    [] op.kind = "IngestLacking" -> IngestLacking(op.r, op.err)
     [] op.kind = "Advance"  -> Advance(op.d)
     [] op.kind = "Scan"     ->
          \E order \in Perms(ExpiredKeys) :
